@@ -1172,8 +1172,8 @@ class SshX509CertificateChain(ParsableBase, SshHostKeyBase):
         parser.parse_numeric('certificate_count', 4)
         certificates = []
         for _ in range(parser['certificate_count']):
-            parser.parse_bytes('certificate', 4)
-            certificates.append(PublicKeyX509.from_der(bytes(parser['certificate'])))
+            parser.parse_bytes('certificate', 4, PublicKeyX509.from_der)
+            certificates.append(parser['certificate'])
 
         parser.parse_numeric('ocsp_response_count', 4)
         ocsp_responses = []
